@@ -1,6 +1,7 @@
 import ZV.Model.C16
 import ZV.Proofs.Wire
 import ZV.Proofs.C16
+import ZV.Proofs.C16Rd
 /-!
   C16 — CT structures serialise canonically and verify soundly.
 
@@ -189,15 +190,46 @@ theorem leaf_ser_precert (ts : UInt64) (ikh tbs ext : Bytes) (hk : ikh.length = 
 
 /-! ### the verifier's decision logic (signature primitives abstract) -/
 
-/-- "its signature by the log key covers that input": SHA-256 hash id, and the primitive of the key's own type -/
+/-- "its signature by the log key covers that input": SHA-256 hash id, and the primitive of the key's own type
+    applied to the SHA-256 digest of exactly that input -/
 def sigValid (p : Prims) (data : Bytes) (sig : DS) : Prop :=
   sig.hash = 4 ∧
-  ((sig.alg = 1 ∧ p.kind = .rsa ∧ p.rsaVerify data sig.sig = true) ∨
-   (sig.alg = 3 ∧ p.kind = .ecdsa ∧ p.ecdsaVerify data sig.sig = true))
+  ((sig.alg = 1 ∧ p.kind = .rsa ∧ p.rsaVerify (ZV.Hash.sha256 data) sig.sig = true) ∨
+   (sig.alg = 3 ∧ p.kind = .ecdsa ∧ p.ecdsaVerify (ZV.Hash.sha256 data) sig.sig = true))
+
+theorem u8_toNat_ne {b c : UInt8} (h : b ≠ c) : b.toNat ≠ c.toNat := fun e => h (UInt8.toNat_inj.mp e)
+
+theorem u8_beq_lit (b c : UInt8) (n : Nat) (hc : c.toNat = n) : (b.toNat == n) = (b == c) := by
+  subst hc
+  by_cases e : b = c
+  · subst e; simp
+  · have := u8_toNat_ne e
+    rw [beq_eq_false_iff_ne.mpr this, beq_eq_false_iff_ne.mpr e]
+
+/-- verifySignature with the generated enum values unfolded to the RFC 5246 numbers -/
+theorem verifySignature_lit (p : Prims) (data : Bytes) (sig : DS) :
+    verifySignature p data sig =
+      if sig.hash != 4 then .err
+      else if sig.alg == 1 then
+        (match p.kind with
+         | .rsa => if p.rsaVerify (ZV.Hash.sha256 data) sig.sig then .ok () else .err
+         | .ecdsa => .err)
+      else if sig.alg == 3 then
+        (match p.kind with
+         | .ecdsa => if p.ecdsaVerify (ZV.Hash.sha256 data) sig.sig then .ok () else .err
+         | .rsa => .err)
+      else .err := by
+  unfold verifySignature
+  have e4 := u8_beq_lit sig.hash 4 4 (by decide)
+  have e1 := u8_beq_lit sig.alg 1 1 (by decide)
+  have e3 := u8_beq_lit sig.alg 3 3 (by decide)
+  simp only [bne, Gen.hashSHA256, Gen.sigRSA, Gen.sigECDSA, e4, e1, e3]
+  rfl
 
 theorem verify_iff (p : Prims) (data : Bytes) (sig : DS) :
     verifySignature p data sig = .ok () ↔ sigValid p data sig := by
-  unfold verifySignature sigValid
+  rw [verifySignature_lit]
+  unfold sigValid
   by_cases hh : sig.hash = 4
   rotate_left
   · have : (sig.hash != 4) = true := by simpa using hh
@@ -206,13 +238,13 @@ theorem verify_iff (p : Prims) (data : Bytes) (sig : DS) :
   by_cases h1 : sig.alg = 1
   · have h13 : ¬ (1 : UInt8) = 3 := by decide
     simp only [h1, beq_self_eq_true, if_true, h13, false_and, or_false, true_and]
-    cases p.kind <;> by_cases hv : p.rsaVerify data sig.sig = true <;> simp [hv]
+    cases p.kind <;> by_cases hv : p.rsaVerify (ZV.Hash.sha256 data) sig.sig = true <;> simp [hv]
   · have h1' : (sig.alg == 1) = false := by simpa using h1
     by_cases h3 : sig.alg = 3
     · simp only [h1', Bool.false_eq_true, if_false, h3, beq_self_eq_true, if_true, h1, false_and, false_or, true_and]
       have : ¬ (3 : UInt8) = 1 := by decide
       simp only [this, false_and, false_or]
-      cases p.kind <;> by_cases hv : p.ecdsaVerify data sig.sig = true <;> simp [hv]
+      cases p.kind <;> by_cases hv : p.ecdsaVerify (ZV.Hash.sha256 data) sig.sig = true <;> simp [hv]
     · have h3' : (sig.alg == 3) = false := by simpa using h3
       simp [h1', h3', h1, h3]
 
@@ -234,6 +266,219 @@ theorem verify_sth_iff (p : Prims) (s : STH) (sig : DS) :
   | err => simp
   | panic => simp
 
+
+/-! ### NewSignatureVerifier: which log keys get a verifier -/
+
+/-- RFC 6962 §2.1.4 key compliance as coded: RSA of at least `minRSABits` (2048, T1) bits, or ECDSA on the
+    standard library's P-256 -/
+def compliant : Key → Prop
+  | .rsa (some bits) => Gen.minRSABits ≤ bits
+  | .ecdsa (some c) => c = .p256
+  | _ => False
+
+/-- a key whose inspected fields can be read without a nil dereference -/
+def wellFormed : Key → Prop
+  | .rsa none | .rsaNil | .ecdsa none | .ecdsaNil => False
+  | _ => True
+
+def keyKind : Key → Option KeyKind
+  | .rsa _ | .rsaNil => some .rsa
+  | .ecdsa _ | .ecdsaNil => some .ecdsa
+  | .other => none
+
+/-- with the switch off (the only value the package can have: the variable is unexported and never assigned)
+    a verifier is created exactly for compliant keys, and it holds a key of that kind -/
+theorem nsv_ok_iff (k : Key) (kk : KeyKind) :
+    newSignatureVerifier false k = .ok kk ↔ compliant k ∧ keyKind k = some kk := by
+  cases k with
+  | rsa b =>
+    cases b with
+    | none => simp [newSignatureVerifier, compliant]
+    | some bits =>
+      by_cases h : bits < Gen.minRSABits
+      · simp [newSignatureVerifier, compliant, keyKind, h]; omega
+      · simp [newSignatureVerifier, compliant, keyKind, h]
+        intro _; omega
+  | rsaNil => simp [newSignatureVerifier, compliant]
+  | ecdsa c =>
+    cases c with
+    | none => simp [newSignatureVerifier, compliant]
+    | some c => cases c <;> simp [newSignatureVerifier, compliant, keyKind]
+  | ecdsaNil => simp [newSignatureVerifier, compliant]
+  | other => simp [newSignatureVerifier, compliant]
+
+/-- with the switch on, every well-formed RSA / ECDSA key is taken; other types never are -/
+theorem nsv_allow_ok_iff (k : Key) (kk : KeyKind) :
+    newSignatureVerifier true k = .ok kk ↔ wellFormed k ∧ keyKind k = some kk := by
+  cases k with
+  | rsa b =>
+    cases b with
+    | none => simp [newSignatureVerifier, wellFormed]
+    | some bits => by_cases h : bits < Gen.minRSABits <;> simp [newSignatureVerifier, wellFormed, keyKind, h]
+  | rsaNil => simp [newSignatureVerifier, wellFormed]
+  | ecdsa c =>
+    cases c with
+    | none => simp [newSignatureVerifier, wellFormed]
+    | some c => cases c <;> simp [newSignatureVerifier, wellFormed, keyKind]
+  | ecdsaNil => simp [newSignatureVerifier, wellFormed]
+  | other => simp [newSignatureVerifier, wellFormed, keyKind]
+
+/-- NewSignatureVerifier panics exactly on the four nil shapes -/
+theorem nsv_panic_iff (allow : Bool) (k : Key) : newSignatureVerifier allow k = .panic ↔ ¬ wellFormed k := by
+  cases k with
+  | rsa b =>
+    cases b with
+    | none => simp [newSignatureVerifier, wellFormed]
+    | some bits => by_cases h : bits < Gen.minRSABits <;> cases allow <;> simp [newSignatureVerifier, wellFormed, h]
+  | rsaNil => simp [newSignatureVerifier, wellFormed]
+  | ecdsa c =>
+    cases c with
+    | none => simp [newSignatureVerifier, wellFormed]
+    | some c => cases c <;> cases allow <;> simp [newSignatureVerifier, wellFormed]
+  | ecdsaNil => simp [newSignatureVerifier, wellFormed]
+  | other => simp [newSignatureVerifier, wellFormed]
+
+/-- end to end: a verifier obtained for log key `k` accepts an SCT exactly when the key is compliant and the
+    signature — made with the primitive of that key's kind over the SHA-256 digest of the RFC 6962 input — verifies -/
+theorem nsv_verify_sct_iff (k : Key) (kk : KeyKind) (rv ev : Bytes → Bytes → Bool) (version : UInt8) (ts : UInt64)
+    (sig : DS) (e : GoLeaf) (hk : newSignatureVerifier false k = .ok kk) :
+    verifySCT ⟨kk, rv, ev⟩ version ts sig e = .ok () ↔
+      compliant k ∧ ∃ data, sctSignatureInput version ts e = .ok data ∧ sigValid ⟨kk, rv, ev⟩ data sig := by
+  rw [verify_sct_iff]
+  have := (nsv_ok_iff k kk).mp hk
+  exact ⟨fun h => ⟨this.1, h⟩, fun h => h.2⟩
+
+/-! ### T1: the constants the models are written with are the ones in the tree -/
+
+theorem gen_prefix_sizes :
+    Gen.certificateLengthBytes = 3 ∧ Gen.preCertificateLengthBytes = 3 ∧ Gen.certificateChainLengthBytes = 3 ∧
+    Gen.extensionsLengthBytes = 2 ∧ Gen.signatureLengthBytes = 2 ∧
+    Gen.xSignatureLengthBytes = Gen.signatureLengthBytes ∧ Gen.xExtensionsLengthBytes = Gen.extensionsLengthBytes := by decide
+
+/-- the size limits are exactly what the length prefixes can express, so a checked value always serialises -/
+theorem gen_limits_fit :
+    Gen.maxCertificateLength = 256 ^ Gen.certificateLengthBytes - 1 ∧
+    Gen.maxExtensionsLength = 256 ^ Gen.extensionsLengthBytes - 1 := by decide
+
+theorem gen_enums :
+    Gen.v1 = 0 ∧ Gen.xV1 = 0 ∧ Gen.x509LogEntryType = 0 ∧ Gen.precertLogEntryType = 1 ∧ Gen.timestampedEntryLeafType = 0 ∧
+    Gen.certificateTimestampSignatureType = 0 ∧ Gen.treeHashSignatureType = 1 ∧
+    Gen.hashSHA256 = 4 ∧ Gen.sigRSA = 1 ∧ Gen.sigECDSA = 3 ∧ Gen.issuerKeyHashLength = 32 ∧ Gen.sha256HashLength = 32 ∧
+    Gen.minRSABits = 2048 := by decide
+
+/-- SerializedLength's literal part is the fixed part of the SCT format: version, log id, timestamp and the two
+    length prefixes plus the two algorithm bytes -/
+theorem gen_sct_fixed_len :
+    Gen.sctFixedLen = 1 + Gen.sha256HashLength + 8 + Gen.extensionsLengthBytes + 2 + Gen.signatureLengthBytes ∧
+    Gen.sctVarTerms = 2 ∧ ∀ s : SCT, s.version = 0 → serializedLength s = .ok (Gen.sctFixedLen + s.ext.length + s.sig.sig.length) := by
+  refine ⟨by decide, by decide, ?_⟩
+  intro s hv
+  simp [serializedLength, hv, Gen.sctFixedLen]
+  omega
+
+/-- the two packages name the DigitallySigned algorithm ids identically -/
+theorem gen_twin_names :
+    Gen.hashNames.all (fun r => r.2.1 == r.2.2) = true ∧ Gen.sigNames.all (fun r => r.2.1 == r.2.2) = true := by decide
+
+theorem checkCert_gen (c : Bytes) : checkCert c = (decide (1 ≤ c.length) && decide (c.length ≤ Gen.maxCertificateLength)) := by
+  simp only [checkCert, Gen.maxCertificateLength]
+  by_cases h0 : c.length = 0
+  · simp [h0]
+  · by_cases h1 : c.length > 16777215
+    · have : ¬ c.length ≤ 16777215 := by omega
+      simp [h0, h1, this]
+    · have : c.length ≤ 16777215 := by omega
+      have h3 : 1 ≤ c.length := by omega
+      simp [h0, h1, this, h3]
+
+/-! ### SerializeSCTHere / marshalDigitallySignedHere with a caller-supplied buffer -/
+
+/-- a buffer changes nothing but the ErrNotEnoughBuffer case -/
+theorem sct_here (s : SCT) (n : Nat) (hv : s.version = 0) :
+    serializeSCTHere s (some n) =
+      if n < 47 + s.ext.length + s.sig.sig.length then .err else serializeSCT s := by
+  simp only [serializeSCT, serializeSCTHere, serializedLength, hv]
+  by_cases h : n < 47 + s.ext.length + s.sig.sig.length
+  · have : n < 1 + 32 + 8 + 2 + s.ext.length + 2 + 2 + s.sig.sig.length := by omega
+    simp [h, this]
+  · have : ¬ n < 1 + 32 + 8 + 2 + s.ext.length + 2 + 2 + s.sig.sig.length := by omega
+    simp [h, this]
+
+theorem ds_here (ds : DS) (n : Nat) :
+    marshalDSHere ds (some n) = if ds.sig.length > 65535 then .err else if n < 4 + ds.sig.length then .err else marshalDS ds := by
+  simp only [marshalDS, marshalDSHere]
+  by_cases h : ds.sig.length > 65535
+  · simp [h]
+  · by_cases h2 : n < 4 + ds.sig.length
+    · have : n < 2 + 2 + ds.sig.length := by omega
+      simp [h, h2, this]
+    · have : ¬ n < 2 + 2 + ds.sig.length := by omega
+      simp [h, h2, this]
+
+/-! ### the reader layer: any chunking of the same bytes gives the same result -/
+
+/-- io.ReadFull on a failure-free reader holding at least n bytes returns the first n, whatever the chunking,
+    and leaves exactly the rest -/
+theorem readFull_chunking (s : Script) (n : Nat) (hs : noFail s = true) (hn : n ≤ (flat s).length) :
+    (readFull s n []).1 = .ok ((flat s).take n) ∧ flat (readFull s n []).2 = (flat s).drop n := by
+  have := readFull_ok s n [] hs hn
+  exact ⟨by simpa using this.1, this.2.1⟩
+
+/-- … and on fewer bytes fails with io.EOF when there are none and io.ErrUnexpectedEOF otherwise -/
+theorem readFull_short_class (s : Script) (n : Nat) (hs : noFail s = true) (hn : (flat s).length < n) :
+    (readFull s n []).1 = .fail (if (flat s).isEmpty then .eof else .uexp) := by
+  have := readFull_short s n [] hs hn
+  simpa using this
+
+/-- readVarBytes on a bytes.Reader = the wire engine's opaque<…> parser; its only io.EOF is a missing or partial
+    length field, a short body is the distinct "short read" error -/
+theorem readVarBytesB_classes (k : Nat) (bs : Bytes) (hk : 0 < k) (hk8 : k ≤ 8) :
+    erase (readVarBytesB k bs) = (opaqueBE k).par bs ∧
+    (readVarBytesB k bs = .fail .eof ↔ bs.length < k) ∧
+    (readVarBytesB k bs = .fail .short ↔ k ≤ bs.length ∧ bs.length - k < beVal (bs.take k)) := by
+  refine ⟨readVarBytesB_erase k bs hk hk8, ?_, ?_⟩
+  · have h1 : ¬ k > 8 := by omega
+    have h2 : ¬ k = 0 := by omega
+    simp only [readVarBytesB, h1, h2, if_false]
+    by_cases hl : bs.length < k
+    · simp [hl]
+    · by_cases hb : bs.length - k < beVal (bs.take k) <;> simp [hl, hb, List.length_drop]
+  · have h1 : ¬ k > 8 := by omega
+    have h2 : ¬ k = 0 := by omega
+    simp only [readVarBytesB, h1, h2, if_false]
+    by_cases hl : bs.length < k
+    · simp [hl]; omega
+    · by_cases hb : bs.length - k < beVal (bs.take k)
+      · simp [hl, hb, List.length_drop]; omega
+      · simp [hl, hb, List.length_drop]
+
+/-- the error-class loop of readASN1CertList is the loop the chain decoder model uses -/
+theorem certLoop_refines (bs : Bytes) : erase (certLoopB 3 bs) = parseEntries 3 bs :=
+  certLoopB_erase 3 bs (by decide) (by decide)
+
+/-! ### unknown entry types -/
+
+/-- every LogEntryType other than x509_entry / precert_entry is rejected by the leaf reader, whatever follows -/
+theorem leaf_unknown_type (ts : UInt64) (t : UInt16) (tail : Bytes) (h0 : t ≠ 0) (h1 : t ≠ 1) (bs : Bytes)
+    (ht : u16.ser t = .ok bs) :
+    readMerkleTreeLeaf ([0] ++ [0] ++ beBytes 8 ts.toNat ++ bs ++ tail) = .err := by
+  have r1 := lawful_u8.rt 0 [0] ([0] ++ beBytes 8 ts.toNat ++ bs ++ tail) (u8_ser 0)
+  have r2 := lawful_u8.rt 0 [0] (beBytes 8 ts.toNat ++ bs ++ tail) (u8_ser 0)
+  have r3 := lawful_u64.rt ts _ (bs ++ tail) (u64_ser ts)
+  have r4 := lawful_u16.rt t bs tail ht
+  have e0 : (t == 0) = false := by simpa using h0
+  have e1 : (t == 1) = false := by simpa using h1
+  simp only [List.append_assoc] at r1 r2 r3 ⊢
+  simp only [readMerkleTreeLeaf, leafFmt, iso, pair, Wire.guard, dep]
+  rw [r1]
+  simp only [beq_self_eq_true, if_true]
+  rw [r2]
+  simp only [beq_self_eq_true, if_true]
+  rw [r3]
+  simp only []
+  rw [r4]
+  simp [entryBody, e0, e1, fail]
+
 /-! ### decoders are total and never read beyond their input -/
 
 theorem decoders_no_panic (bs : Bytes) :
@@ -253,5 +498,13 @@ example : (precertChainFmt.ser [[1, 2], [3]]).isOk = true := by decide
 example : ∃ p data sig, sigValid p data sig := ⟨⟨.ecdsa, fun _ _ => false, fun _ _ => true⟩, [], ⟨4, 3, []⟩, by simp [sigValid]⟩
 example : ∃ ds : DS, ds.sig.length > 65535 :=
   ⟨⟨4, 3, List.replicate 65536 0⟩, by show (List.replicate 65536 (0 : UInt8)).length > 65535; rw [List.length_replicate]; decide⟩
+
+example : ∃ k kk, newSignatureVerifier false k = .ok kk := ⟨.ecdsa (some .p256), .ecdsa, by decide⟩
+example : ∃ k, compliant k ∧ keyKind k = some .rsa := ⟨.rsa (some 2048), by simp [compliant, Gen.minRSABits], rfl⟩
+example : ∃ k, wellFormed k ∧ ¬ compliant k := ⟨.ecdsa (some .copy), trivial, by simp [compliant]⟩
+example : ∃ s : Script, noFail s = true ∧ 3 ≤ (flat s).length := ⟨[.data [1], .data [], .data [2, 3, 4]], by decide, by decide⟩
+example : ∃ s : Script, noFail s = true ∧ (flat s).length < 3 := ⟨[.data [1]], by decide, by decide⟩
+example : ∃ (t : UInt16) (bs : Bytes), t ≠ 0 ∧ t ≠ 1 ∧ u16.ser t = .ok bs := ⟨2, [0, 2], by decide, by decide, by decide⟩
+example : ∃ s : SCT, s.version = 0 := ⟨⟨0, [], 0, [], ⟨4, 3, []⟩⟩, rfl⟩
 
 end ZV.C16
